@@ -391,6 +391,55 @@ func zooMakers() []zooMaker {
 			out = append(out, zooMerged("stored-prefix-widths-merged", true, 0, [][]uint32{{1}, nil}, mkw, partner))
 		}
 	}
+	// (h) doc-value chunk headers: one entry per combination of the widths of its two numbers - the
+	// document number delta (1 byte inside a run; 2 bytes after a gap of >= 128 or for a chunk's first
+	// document >= 128; 3 bytes for a chunk's first document >= 16 384) and the end offset delta
+	// (< 128 B, < 16 KiB, < 2 MiB, >= 2 MiB of doc-value bytes in that document)
+	{
+		dvw := func() []model.Doc {
+			const n = 19500
+			terms := make([]model.Term, 2200)
+			for k := range terms {
+				t := make([]byte, 1000)
+				copy(t, fmt.Sprintf("%06d", k))
+				for i := 6; i < len(t); i++ {
+					t[i] = byte('a' + (i+k)%17)
+				}
+				terms[k] = model.Term{T: string(t), Freq: 1}
+			}
+			sizes := []int{1, 9, 20, 2200} // terms of 1000 bytes
+			b := make([]model.Doc, n)
+			for i := range b {
+				b[i] = model.Doc{gen.IDField("h", i)}
+			}
+			put := func(d, k int) {
+				ts := append([]model.Term{}, terms[:sizes[k%4]]...)
+				if k%4 == 0 {
+					ts = []model.Term{{T: "short", Freq: 1}}
+				}
+				b[d] = append(b[d], model.Field{N: "b", Len: len(ts), DV: true, Terms: ts})
+			}
+			k := 0
+			for ch := 0; ch*1024 < n; ch++ {
+				base := ch * 1024
+				switch {
+				case ch >= 16 || ch <= 2: // every size as the chunk's first entry, in-run, and after a gap
+					for j, d := range []int{base, base + 1, base + 2, base + 300, base + 301, base + 302, base + 303, base + 600, base + 900} {
+						if d < n {
+							put(d, ch+j)
+						}
+					}
+				default:
+					put(base+ch%3, k)
+					put(base+500, k+1)
+					k += 2
+				}
+			}
+			return b
+		}
+		out = append(out, zooBuilt("dv-header-widths", true, dvw))
+		out = append(out, zooMerged("dv-header-widths-merged", true, 0, [][]uint32{{1}, nil}, dvw, partner))
+	}
 	// 7. 66 000 documents (document numbers cross 65 536)
 	out = append(out, zooBuilt("huge-66000", true, func() []model.Doc {
 		b := gen.Large(66000, 1, 1)
@@ -668,6 +717,27 @@ func zooDocValues(c *explore.Ctx, idx int64, z *zooSeg) {
 	docs := zooInterestDocs(len(z.want.Docs))
 	if z.heavy && len(docs) > 4 {
 		docs = docs[len(docs)-4:]
+	}
+	// one reader walking ALL documents upwards, and one visiting every chunk's first and last
+	// documents downwards (every header entry of every chunk is decoded)
+	if n := len(z.want.Docs); n > 6 {
+		all := make([]uint64, n)
+		for i := range all {
+			all[i] = uint64(i)
+		}
+		var down []uint64
+		for d := n - 1; d >= 0; d-- {
+			if d%1024 <= 1 || d%1024 >= 1022 || d == n-1 {
+				down = append(down, uint64(d))
+			}
+		}
+		for _, o := range [][]uint64{all, down} {
+			c.R.Transitions += int64(len(o))
+			if bad, _ := runDVSeq1(z.seg, z.want, fields, o); bad != "" {
+				c.Violate("ZOO", idx, sigOf("C07", "zoo", bad), bad, "ZOO "+z.name)
+				return
+			}
+		}
 	}
 	for _, fs := range [][]string{fields, reverseStrings(fields)} {
 		for _, o := range orders(docs, 3) {
